@@ -156,8 +156,10 @@ Definition eval11 (c : case11) : verdict :=
   let p0 := repeat unwritten n in
   (* model runs *)
   let wf := map (fun z => binary_normalize 53 1024 z (c_wexp c) false) (c_ws c) in
-  let wq := map (fun z => if (0 <=? c_wexp c)%Z then inject_Z (z * 2 ^ c_wexp c)
-                          else Qmake z (Z.to_pos (2 ^ (- c_wexp c)))) (c_ws c) in
+  (* the exact model is run on the numerators: every operation of the model is
+     homogeneous in the weights, so the common factor 2^c_wexp changes nothing
+     at exact arithmetic (and 2^-1074 denominators would only slow it down) *)
+  let wq := map inject_Z (c_ws c) in
   let sch_model := partition_scheme F64impl root k m in
   let scheme_ok :=
     match sch_model, c_scheme c with
